@@ -44,6 +44,46 @@ type Ctx struct {
 	curCase     any
 }
 
+// signature summarises what a run observed (outcome labels and finding classes).
+func (c *Ctx) signature() string {
+	var parts []string
+	for k, v := range c.outcomes {
+		parts = append(parts, fmt.Sprintf("%s=%d", k, v))
+	}
+	for k := range c.findings {
+		parts = append(parts, "finding:"+k)
+	}
+	sort.Strings(parts)
+	return "{" + strings.Join(parts, ", ") + "}"
+}
+
+// merge adds the counters and findings of o into c.
+func (c *Ctx) merge(o *Ctx) {
+	c.evals += o.evals
+	c.nontrivial += o.nontrivial
+	c.states += o.states
+	c.transitions += o.transitions
+	for k, v := range o.outcomes {
+		c.outcomes[k] += v
+	}
+	for k, v := range o.sampleOut {
+		if _, ok := c.sampleOut[k]; !ok && len(c.sampleOut) < 24 {
+			c.sampleOut[k] = v
+		}
+	}
+	for k, f := range o.findings {
+		a := c.findings[k]
+		if a == nil {
+			c.findings[k] = f
+			continue
+		}
+		a.Count += f.Count
+		if f.Seq < a.Seq {
+			a.Seq, a.Msg, a.Case = f.Seq, f.Msg, f.Case
+		}
+	}
+}
+
 // Eval counts n executions of real code.
 func (c *Ctx) Eval(n int64) { c.evals += n }
 
@@ -116,6 +156,10 @@ type Sub struct {
 	Setup func(tier string) error
 	// Replays is how many times a witness is re-executed before it is believed (default 5).
 	Replays int
+	// Repeat executes every case twice in a row and requires identical observations
+	// (outcome labels and finding classes): the second identical call must not behave
+	// differently (a cache or memo poisoned by the first call).
+	Repeat bool
 }
 
 // Check is a property check.
@@ -576,7 +620,18 @@ func runSub(sub *Sub, tier string, deadline time.Time) (subStats, []any, map[str
 						}()
 						ctx.seq = it.seq
 						ctx.curCase = it.c
-						sub.Run(ctx, it.c)
+						if !sub.Repeat {
+							sub.Run(ctx, it.c)
+							return
+						}
+						c1, c2 := newCtx(tier), newCtx(tier)
+						c1.seq, c1.curCase, c2.seq, c2.curCase = it.seq, it.c, it.seq, it.c
+						sub.Run(c1, it.c)
+						sub.Run(c2, it.c)
+						if s1, s2 := c1.signature(), c2.signature(); s1 != s2 {
+							c1.Fail("not-repeatable/second-identical-call-differs", fmt.Sprintf("the same case executed twice in a row gives different observations: first %s, second %s", s1, s2), it.c)
+						}
+						ctx.merge(c1)
 					}()
 				}
 			}
